@@ -136,6 +136,9 @@ def rand_sched(rng, preempt=False):
     if preempt:
         # worker threads are additionally pre-empted at line events of the code under test
         sc['preempt_p'] = rng.choice([1 / 64.0, 1 / 32.0, 1 / 16.0])
+        # after a switch the task switched to may get a stretch of lines to itself: a race whose other half is far away in the
+        # other task (its next insertion into a shared table, say) needs a long one, a two-line window a short one
+        sc['preempt_stretch'] = rng.choice([[0], [0], [0, 400], [40, 4000], [400, 4000, 40000]])
         if rng.random() < 0.5:
             # aimed at shared state: only the line after a write to an attribute / global / item, the other task then runs a while
             sc['preempt_mode'] = 'store'
